@@ -62,6 +62,10 @@ type Unit struct {
 	MemGB      int               `json:"mem_gb"`
 	Test       string            `json:"test"` // entry test function (default TestVerif)
 	ModReplace map[string]string `json:"mod_replace"` // extra modules for the harness: module path -> repo-relative dir (added to the alternate modfile only)
+	// Race: the supporting race pass - the same harness under the same scheduler in a -race binary whose detector does not see
+	// the scheduler's hand-offs (engine/vs/race.go); RaceExecs caps the executions per exploration call
+	Race      bool `json:"race"`
+	RaceExecs int  `json:"race_execs"`
 }
 
 type Harness struct {
@@ -363,8 +367,11 @@ func buildUnit(h *Harness, u *Unit, tier, work string) (*built, error) {
 	bin := filepath.Join(work, "harness.test")
 	relPk, _ := filepath.Rel(u.Module, pkgRel)
 	pk := "./" + filepath.ToSlash(relPk)
-	cmd := exec.Command("go", "test", "-c", "-tags", "verif", "-vet=off", "-modfile="+filepath.Join(work, "alt.mod"),
-		"-overlay="+ovPath, "-o", bin, pk)
+	bargs := []string{"test", "-c", "-tags", "verif", "-vet=off", "-modfile=" + filepath.Join(work, "alt.mod"), "-overlay=" + ovPath, "-o", bin}
+	if u.Race {
+		bargs = append(bargs, "-race")
+	}
+	cmd := exec.Command("go", append(bargs, pk)...)
 	cmd.Dir = modDir
 	cmd.Env = goEnv()
 	out, err := cmd.CombinedOutput()
@@ -422,6 +429,11 @@ func runShard(j shardJob, tier string, seed int, verbose bool) (string, error) {
 		args = append(args, "-test.v")
 	}
 	sh := fmt.Sprintf("ulimit -v %d; exec timeout -k 5 %d %s %s", mem*1024*1024, hard, j.b.bin, strings.Join(args, " "))
+	if u.Race {
+		// the detector reserves terabytes of address space: no address-space limit here (the execution cap bounds the run);
+		// "|| true": the testing package fails a test during which the detector reported anything - the verdict is the report file
+		sh = fmt.Sprintf("timeout -k 5 %d %s %s || true", hard, j.b.bin, strings.Join(args, " "))
+	}
 	cmd := exec.Command("bash", "-c", sh)
 	cmd.Dir = j.b.work
 	gmp := u.GoMaxProcs
@@ -432,6 +444,15 @@ func runShard(j shardJob, tier string, seed int, verbose bool) (string, error) {
 		"VERIF_REPORT="+j.report, "VERIF_TIER="+tier, fmt.Sprintf("VERIF_SHARD=%d", j.i), fmt.Sprintf("VERIF_SHARDS=%d", j.n),
 		fmt.Sprintf("VERIF_SEED=%d", seed), fmt.Sprintf("VERIF_BUDGET_S=%d", budget), "VERIF_PARAMS="+u.Params[tier],
 		fmt.Sprintf("GOMAXPROCS=%d", gmp), "VERIF_REPLAY="+j.replay, "VERIF_UNIT="+u.Name)
+	if u.Race {
+		re := u.RaceExecs
+		if re == 0 {
+			re = 300
+		}
+		logp := fmt.Sprintf("%s/race-%d-%d", j.b.work, j.i, time.Now().UnixNano())
+		cmd.Env = append(cmd.Env, "VERIF_RACE=1", fmt.Sprintf("VERIF_RACE_EXECS=%d", re), "VERIF_RACE_LOG="+logp,
+			"GORACE=log_path="+logp+" halt_on_error=0 exitcode=0")
+	}
 	out, err := cmd.CombinedOutput()
 	return string(out), err
 }
